@@ -32,6 +32,9 @@ thread_local! {
     static LOG: RefCell<Vec<(String, String, Vec<Entry>)>> = const { RefCell::new(Vec::new()) };
     /// inodes that have received an error message at some point of the run (sticky)
     static TAINT: RefCell<Vec<Rc<RefCell<Inode>>>> = const { RefCell::new(Vec::new()) };
+    /// shell text of the redirection lists the `rg` built-in hands to its own `RedirGuard`
+    /// (indexed by the built-in's operand), and whether it ends with `preserve_redirs`
+    static GUARD_LISTS: RefCell<Vec<(String, bool)>> = const { RefCell::new(Vec::new()) };
 }
 
 /// (fd, identity of the open file description, cloexec)
@@ -189,8 +192,96 @@ fn fds_main(env: &mut VEnv, _args: Vec<Field>) -> BuiltinFuture<'_> {
     })
 }
 
+fn errno_name(e: yash_env::system::Errno) -> String {
+    use yash_env::system::Errno;
+    for (v, n) in [
+        (Errno::EBADF, "EBADF"),
+        (Errno::EMFILE, "EMFILE"),
+        (Errno::EEXIST, "EEXIST"),
+        (Errno::ENOENT, "ENOENT"),
+        (Errno::ENOTDIR, "ENOTDIR"),
+        (Errno::EISDIR, "EISDIR"),
+        (Errno::EACCES, "EACCES"),
+        (Errno::EIO, "EIO"),
+    ] {
+        if e == v {
+            return n.into();
+        }
+    }
+    format!("E{}", e.0)
+}
+
+/// class of a `redir::ErrorCause`: variant, descriptor, errno — no message, no pathname
+fn cause_class(c: &yash_semantics::redir::ErrorCause) -> String {
+    use yash_semantics::redir::ErrorCause as C;
+    match c {
+        C::Expansion(_) => "exp".into(),
+        C::NulByte(_) => "nul".into(),
+        C::FdNotOverwritten(fd, e) => format!("fno:{}:{}", fd.0, errno_name(*e)),
+        C::ReservedFd(fd) => format!("rsv:{}", fd.0),
+        C::OpenFile(_, e) => format!("open:{}", errno_name(*e)),
+        C::MalformedFd(_, _) => "mal".into(),
+        C::UnreadableFd(fd) => format!("unr:{}", fd.0),
+        C::UnwritableFd(fd) => format!("unw:{}", fd.0),
+        C::TemporaryFileUnavailable(e) => format!("tmp:{}", errno_name(*e)),
+        C::UnsupportedPipeRedirection | C::UnsupportedHereString => "uns".into(),
+        _ => "other".into(),
+    }
+}
+
+/// the redirections of the first simple command of `text` (here-document contents filled in)
+fn redirs_of(text: &str) -> Option<Rc<Vec<yash_syntax::syntax::Redir>>> {
+    use yash_syntax::syntax::{Command, List};
+    let list: List = text.parse().ok()?;
+    let item = list.0.first()?;
+    match &**item.and_or.first.commands.first()? {
+        Command::Simple(sc) => Some(Rc::clone(&sc.redirs)),
+        _ => None,
+    }
+}
+
+/// `rg N`: drives `RedirGuard` directly on list N — `perform_redir` item by item as `perform_redirs`
+/// does, recording the process table after every call and the cause of the failing one; then
+/// `preserve_redirs` (list marked so and no failure) or `undo_redirs`.  Prints nothing.
+fn rg_main(env: &mut VEnv, args: Vec<Field>) -> BuiltinFuture<'_> {
+    Box::pin(async move {
+        let idx: usize = args.first().and_then(|f| f.value.parse().ok()).unwrap_or(usize::MAX);
+        let Some((text, keep)) = GUARD_LISTS.with(|g| g.borrow().get(idx).cloned()) else {
+            LOG.with(|l| l.borrow_mut().push(("rg".into(), "NO-LIST".into(), vec![])));
+            return ExitStatus(99).into();
+        };
+        let Some(redirs) = redirs_of(&text) else {
+            LOG.with(|l| l.borrow_mut().push(("rg".into(), "NO-PARSE".into(), vec![])));
+            return ExitStatus(98).into();
+        };
+        let mut guard = yash_semantics::redir::RedirGuard::new(env);
+        let mut steps = vec![];
+        let mut cause = "-".to_string();
+        for r in redirs.iter() {
+            let res = guard.perform_redir(r, None).await;
+            let (s, e) = snap_now(&guard);
+            LOG.with(|l| l.borrow_mut().push(("gstep".into(), s.clone(), e)));
+            steps.push(s);
+            if let Err(e) = res {
+                cause = cause_class(&e.cause);
+                break;
+            }
+        }
+        let failed = cause != "-";
+        if keep && !failed {
+            guard.preserve_redirs();
+        } else {
+            guard.undo_redirs();
+        }
+        drop(guard);
+        LOG.with(|l| l.borrow_mut().push(("rg".into(), format!("G:{}|e{cause}", steps.join("/")), vec![])));
+        ExitStatus(if failed { 2 } else { 0 }).into()
+    })
+}
+
 fn c09_builtins() -> Vec<(&'static str, Builtin<VSys>)> {
     vec![
+        ("rg", Builtin::new(Type::Mandatory, rg_main)),
         ("mark", Builtin::new(Type::Mandatory, mark_main)),
         ("fds", Builtin::new(Type::Mandatory, fds_main)),
         ("sfds", Builtin::new(Type::Special, fds_main)),
@@ -422,6 +513,15 @@ fn command_text(kind: &str, redirs: &[RedirSpec], salt: u64) -> String {
             words.push(format!("{n}{sym}{}", operand_text(operand)));
         }
     }
+    if kind == "guard" || kind == "guardkeep" {
+        // the list goes to the built-in's own guard, not to the command
+        let idx = GUARD_LISTS.with(|g| {
+            let mut g = g.borrow_mut();
+            g.push((format!("x {}\n{}", words.join(" "), bodies), kind == "guardkeep"));
+            g.len() - 1
+        });
+        return format!("rg {idx}\nmark\n");
+    }
     let cmd = match kind {
         "special" => "sfds",
         "colon" => ":",
@@ -539,9 +639,10 @@ fn run_case(case: &str) -> (String, String) {
         return ("bad-case".into(), "-".into());
     };
     let salt = case.bytes().fold(0xcbf29ce484222325u64, |h, b| (h ^ b as u64).wrapping_mul(0x100000001b3));
-    let script = script_of(&c, salt);
     LOG.with(|l| l.borrow_mut().clear());
     TAINT.with(|t| t.borrow_mut().clear());
+    GUARD_LISTS.with(|g| g.borrow_mut().clear());
+    let script = script_of(&c, salt);
     let mut config = Config::new(&script);
     if c.noclobber {
         config.options.push((ShellOption::Clobber, State::Off));
@@ -596,13 +697,23 @@ fn run_case(case: &str) -> (String, String) {
     let mut base: Vec<Entry> = log[0].2.clone();
     for (kind, redirs) in &c.commands {
         let mut during: Vec<&(String, String, Vec<Entry>)> = vec![];
-        while pos < log.len() && log[pos].0 == "fds" {
-            during.push(&log[pos]);
+        // tables after each `perform_redir` of the `rg` built-in, and its summary
+        let mut gsteps: Vec<&(String, String, Vec<Entry>)> = vec![];
+        let mut gsummary: Option<&(String, String, Vec<Entry>)> = None;
+        while pos < log.len() && (log[pos].0 == "fds" || log[pos].0 == "gstep" || log[pos].0 == "rg") {
+            match log[pos].0.as_str() {
+                "fds" => during.push(&log[pos]),
+                "gstep" => gsteps.push(&log[pos]),
+                _ => gsummary = Some(&log[pos]),
+            }
             pos += 1;
         }
         let after = if pos < log.len() { Some(&log[pos]) } else { None };
         pos += 1;
-        let d_text = during.first().map(|d| d.1.clone()).unwrap_or_else(|| "-".into());
+        let d_text = gsummary
+            .map(|g| g.1.clone())
+            .or_else(|| during.first().map(|d| d.1.clone()))
+            .unwrap_or_else(|| "-".into());
         let a_text = after.map(|a| a.1.clone()).unwrap_or_else(|| "-".into());
         parts.push(format!("D={d_text} A={a_text}"));
 
@@ -649,14 +760,19 @@ fn run_case(case: &str) -> (String, String) {
             }
         }
         // no CLOEXEC descriptor below 10 is ever visible or left that was not there before
-        for (what, table) in [("left", Some(left)), ("visible", during.first().map(|d| &d.2))] {
-            for e in table.into_iter().flatten() {
+        let mut seen: Vec<(&str, &Vec<Entry>)> = vec![("left", left)];
+        seen.extend(during.first().map(|d| ("visible", &d.2)));
+        seen.extend(gsteps.iter().map(|g| ("after-a-step", &g.2)));
+        for (what, table) in seen {
+            for e in table {
                 if e.0 < 10 && e.2 && !base.contains(e) {
                     verdict = format!("FAIL:cloexec-descriptor-{}-{what}", e.0);
                 }
             }
         }
-        if let Some(d) = during.first() {
+        // what the body of the command sees, and what the process table is after every step of the
+        // guard driven directly: anything new that is not a target is the guard's, >= 10 and CLOEXEC
+        for d in during.first().into_iter().chain(gsteps.iter()) {
             for e in &d.2 {
                 let unchanged = base.contains(e);
                 if !unchanged && !targets.contains(&e.0) && !(e.0 >= 10 && e.2) {
@@ -697,14 +813,14 @@ fn run_guarded(case: &str) -> (String, String) {
     if o.starts_with("PANIC") { (o.clone(), format!("FAIL:{o}")) } else { out }
 }
 
-const KINDS: [&str; 29] = [
-    "elective", "extension", "substitutive", "substlost",
+const KINDS: [&str; 31] = [
+    "guard", "guardkeep", "elective", "extension", "substitutive", "substlost",
     "special", "colon", "regular", "func", "brace", "notfound", "empty", "exec", "paren", "cmdexec", "dot", "dotx",
     "execnf", "execne", "cmdexecnf", "funcret", "assign", "ext", "extp", "execbad", "forloop", "whileloop",
     "untilloop", "ifcmd", "casecmd",
 ];
 /// kinds whose built-in asks to retain the redirections (`should_retain_redirs`)
-const EXEC_FAMILY: [&str; 5] = ["exec", "cmdexec", "execnf", "execne", "cmdexecnf"];
+const EXEC_FAMILY: [&str; 6] = ["exec", "cmdexec", "execnf", "execne", "cmdexecnf", "guardkeep"];
 const FILE_OPS: [&str; 5] = ["in", "out", "clob", "app", "rw"];
 const FILE_OPERANDS: [&str; 11] = ["a", "b", "m", "n", "d", "e", "E", "t", "N", "ca", "cm"];
 
@@ -975,6 +1091,81 @@ fn exec_cases(thorough: bool) -> Vec<String> {
     v
 }
 
+/// an operand whose expansion fails (`${u?}`, or a command substitution that cannot get its pipe under a
+/// low limit) at every position of a list, after redirections that succeeded and hold saved copies, on
+/// every kind, in interactive and non-interactive shells, followed by a command that shows whether the
+/// shell went on (`Handle for redir::Error` delegates the `Expansion` cause: the command is abandoned
+/// and the shell interrupted whatever the kind)
+fn expansion_cases(thorough: bool) -> Vec<String> {
+    let lists = [
+        "0 in E",
+        "1 out a; 0 in E",
+        "1 out a; 2 dupout 1; 0 in E",
+        "3 out m; 4 dupout E",
+        "0 here -; 1 out E; 2 out b",
+        "1 out E; 1 out a",
+        "5 rw n; 0 dupin E; 1 out b",
+        "1 app b; 1 out ca",
+    ];
+    let mut v = vec![];
+    for (i, kind) in KINDS.iter().enumerate() {
+        for (j, l) in lists.iter().enumerate() {
+            for inter in ["", " i"] {
+                for pre in ["-", "3b,11c"] {
+                    if !thorough && (i + j) % 2 != 0 && pre != "-" {
+                        continue;
+                    }
+                    v.push(format!("0 - {pre}{inter} | {kind} | {l} | regular | 1 out m"));
+                }
+                // the substitution's pipe needs two free descriptors: limits around the boundary
+                if l.ends_with("ca") {
+                    for lim in [4, 5, 6, 12, 13] {
+                        v.push(format!("0 {lim} -{inter} | {kind} | {l} | special | "));
+                    }
+                }
+            }
+        }
+    }
+    v
+}
+
+/// the guard driven directly (`rg` built-in): every single redirection, and lists with a failure at
+/// every position, under every limit; the table is looked at after each `perform_redir`
+fn guard_cases(thorough: bool) -> Vec<String> {
+    let lists = [
+        "1 out a; 2 dupout 1; 0 in m",
+        "1 out a; 1 app b; 1 dupout -",
+        "0 here -; 3 dupin 0; 0 dupin -; 3 in a",
+        "3 out m; 3 dupout -; 3 in m",
+        "1 dupout 7; 1 out a",
+        "2 out d; 1 out a",
+        "1 out a; 10 out m; 1 dupout 10",
+        "5 rw n; 5 dupout neg",
+        "0 dupin 4000; 0 in a",
+        "1 out N; 1 out a",
+        "1 pipe a",
+        "1 out ca; 2 out cm",
+    ];
+    let mut v = vec![];
+    for kind in ["guard", "guardkeep"] {
+        for (i, l) in lists.iter().enumerate() {
+            for pre in ["-", "3b,11c", "0x,1x", "10b"] {
+                for nc in [0, 1] {
+                    v.push(format!("{nc} - {pre} | {kind} | {l} | regular | "));
+                }
+                let lo = if pre == "10b" || pre == "3b,11c" { 12 } else { 3 };
+                for lim in lo..=15 {
+                    if !thorough && (i + lim) % 3 != 0 {
+                        continue;
+                    }
+                    v.push(format!("0 {lim} {pre} | {kind} | {l} | {kind} | 1 out m; 0 in e"));
+                }
+            }
+        }
+    }
+    v
+}
+
 fn main() {
     quiet_panics();
     let o = Opts::from_args();
@@ -992,6 +1183,8 @@ fn main() {
     all.extend(pairs(o.thorough()));
     all.extend(dot_cases());
     all.extend(exec_cases(o.thorough()));
+    all.extend(expansion_cases(o.thorough()));
+    all.extend(guard_cases(o.thorough()));
     for c in &all {
         if index % o.shard.1 == o.shard.0 {
             let (obs, oracle) = run_guarded(c);
